@@ -1,7 +1,7 @@
 SPECIFICATION GSpec
-CONSTANTS N = 3
+CONSTANTS N = 1
           OUTER = TRUE
-          AFTER = FALSE
+          AFTER = TRUE
 CHECK_DEADLOCK FALSE
 INVARIANT Emit
 INVARIANT CatchIdsUnique
